@@ -137,6 +137,33 @@ pub(crate) struct LiveEvents<'a> {
     budget_breach: Option<(crate::budget::BudgetBreach, Location)>,
 }
 
+/// The place where the text of a block scalar stands in the input verbatim, if it does.
+///
+/// The parser's span of a block scalar begins at its first non-blank content line - or, for a
+/// scalar of blank lines only, at the token that follows it or at the `|` / `>` indicator. The
+/// text may begin with the line breaks of leading blank lines, which stand in front of that
+/// place. Every candidate is compared in full, so a hit is the text itself.
+fn block_scalar_in_input<'i>(input: &'i str, location: &Location, text: &str) -> Option<&'i str> {
+    let start = location.span().byte_offset()? as usize;
+    let at = |from: usize| -> Option<&'i str> {
+        input
+            .get(from..from.checked_add(text.len())?)
+            .filter(|slice| *slice == text)
+    };
+    let leading_breaks = text.bytes().take_while(|b| *b == b'\n').count();
+    at(start)
+        .or_else(|| at(start.checked_sub(leading_breaks)?))
+        .or_else(|| {
+            // span at the indicator: the text begins behind the header line
+            let rest = input.get(start..)?;
+            if rest.starts_with('|') || rest.starts_with('>') {
+                at(start + rest.find('\n')? + 1)
+            } else {
+                None
+            }
+        })
+}
+
 /// A single alias-replay stack frame (one active `*alias` expansion).
 #[derive(Clone, Copy, Debug)]
 struct InjectFrame {
@@ -408,16 +435,14 @@ impl<'a> LiveEvents<'a> {
                         (Cow::Owned(text), Some(input))
                             if matches!(style, ScalarStyle::Literal | ScalarStyle::Folded) =>
                         {
-                            let verbatim = location
-                                .span()
-                                .byte_offset()
-                                .map(|start| start as usize)
-                                .and_then(|start| input.get(start..start.checked_add(text.len())?))
-                                .filter(|slice| *slice == text);
-                            match verbatim {
+                            match block_scalar_in_input(input, &location, &text) {
                                 Some(slice) => Cow::Borrowed(slice),
                                 None => Cow::Owned(text),
                             }
+                        }
+                        // An empty text is in any input.
+                        (Cow::Owned(text), Some(input)) if text.is_empty() => {
+                            Cow::Borrowed(&input[..0])
                         }
                         (val, _) => val,
                     };
